@@ -847,7 +847,9 @@ def import_expected(spec) -> Tuple[Optional[bool], str]:
         if name not in KNOWN_CRIT[ctype]:
             return False, 'unknown-critical'
 
-    conform = True
+    # only ssh-rsa-cert-v01@openssh.com is a key type inside a blob; the
+    # rsa-sha2-*-cert names are negotiation aliases (asyncssh accepts them)
+    conform = spec.get('calg', 0) % len(KT[spec['sub'][0]]['cert']) == 0
 
     for name, kind, val in spec['crit']:
         if kind != 'str':
@@ -1521,6 +1523,9 @@ def entry_line(entry, keys: Dict[str, RefKey]) -> str:
             val = ','.join(entry['namespaces'])
             opts.append('namespaces="%s"' % val if entry['quote'] or
                         ' ' in val or ',' in val else 'namespaces=' + val)
+        elif o == 'va' and entry['va'] is not None and entry['quote']:
+            opts.append('valid-after="%s"' % ts_text(
+                entry['va'], entry['va'] % 86400 == 0))
         elif o == 'va' and entry['va'] is not None:
             opts.append('valid-after=' + ts_text(entry['va'],
                                                  entry['va'] % 86400 == 0))
@@ -1871,6 +1876,9 @@ def sshsig_strategy_for(kts, names, ns_pool, ns_pats, pats, keygen=False):
             if keygen:
                 cert['type'] = USER
                 cert['crit'] = []
+                if cert['ca'][0] == 'rsa':
+                    cert['sigalg'] = draw(st.sampled_from(
+                        ['rsa-sha2-256', 'rsa-sha2-512']))
                 if not cert['principals']:
                     cert['principals'] = [draw(st.sampled_from(names))]
             elif cert['type'] == HOST:
@@ -1892,7 +1900,8 @@ def sshsig_strategy_for(kts, names, ns_pool, ns_pats, pats, keygen=False):
                         st.none(), st.lists(st.sampled_from(ns_pats),
                                             min_size=1, max_size=3))),
                     'va': draw(tsopt), 'vb': draw(tsopt), 'key': keyname,
-                    'quote': draw(st.booleans()),
+                    # OpenSSH insists on quoted option values
+                    'quote': True if keygen else draw(st.booleans()),
                     'order': draw(st.permutations(['ca', 'ns', 'va', 'vb'])),
                     'comment': draw(st.sampled_from(['', 'c@h', 'a b'])),
                     'sep': draw(st.sampled_from([' ', ' ', '\t', '  ']))}
@@ -1957,6 +1966,443 @@ def sshsig_model_strategy(tier: str):
                                PRINCIPAL_PATS)
 
 
+# --------------------------------------------------------------------------
+# differential families against ssh-keygen (OpenSSH 9.2)
+
+_ENV = dict(os.environ, TZ='UTC', LC_ALL='C')
+KG_NAMES = ['alice@example.com', 'bob@example.com', 'carol', 'dave@evil.org']
+KG_NAMESPACES = ['file', 'git', 'email', 'f', 'File']
+KG_NS_PATS = ['file', 'git', 'email', 'f*', '*', '!git', 'fil?', '!*']
+KG_PATS = KG_NAMES + ['*', '*@example.com', 'al?ce@example.com', 'bob*',
+                      '!bob@example.com', '!*@evil.org', '!*', 'c?rol']
+
+
+def keygen(args, tmp, stdin: bytes = b''):
+    try:
+        p = subprocess.run(['ssh-keygen'] + args, input=stdin, cwd=tmp,
+                           env=_ENV, capture_output=True, timeout=30)
+    except FileNotFoundError:
+        raise HarnessError('ssh-keygen not installed') from None
+
+    return p.returncode, p.stdout, p.stderr
+
+
+def write(tmp, name, data: bytes, mode=0o600) -> str:
+    path = os.path.join(tmp, name)
+
+    with open(path, 'wb') as f:
+        f.write(data)
+
+    os.chmod(path, mode)
+    return path
+
+
+def verify_time(now: int) -> str:
+    return '-Overify-time=' + ts_text(now)
+
+
+def run_keygen_sshsig(case) -> CaseResult:
+    keys, cert_blob, keyarg = sshsig_setup(case)
+    signer = keys['signer']
+    msg, ns, hname = case['msg'], case['namespace'], case['hash']
+    direction = 'a2k' if cert_blob else case['direction']
+    labels = {'kt:' + signer.kt, 'dir:' + direction,
+              'signer:' + ('cert' if cert_blob else 'key')}
+    allowed = allowed_text(case, keys)
+    tmp = tempfile.mkdtemp(prefix='c16-')
+
+    try:
+        write(tmp, 'allowed', allowed)
+
+        if direction == 'a2k':
+            sig = asyncssh.create_sshsig(keyarg, msg, hash_name=hname,
+                                         namespace=ns)
+        else:
+            write(tmp, 'key', signer.openssh_private)
+            rc, out, err = keygen(['-Y', 'sign', '-f', 'key', '-n', ns,
+                                   '-O', 'hashalg=' + hname], tmp, msg)
+
+            if rc != 0:
+                raise HarnessError('ssh-keygen -Y sign failed: %r' % err)
+
+            sig = out
+
+        write(tmp, 'sig', sig)
+        blob = dearmor(sig)
+        parsed = sshsig_parse(blob)
+
+        # signature as such (no allowed signers involved)
+        rc, out, err = keygen(['-Y', 'check-novalidate', '-n', ns, '-s',
+                               'sig'], tmp, msg)
+        kg_good = rc == 0
+        anyone = ('* ' + ('cert-authority ' if cert_blob else '') +
+                  (keys['ca'] if cert_blob else signer).pub_text.decode() +
+                  '\n').encode()
+
+        with patched_clock() as clock:
+            clock.now = 1650000000 if not cert_blob else \
+                max(case['cert']['va'], 1)
+            own = sig_validate(msg, sig, case['queries'][0] if not cert_blob
+                               else (case['cert']['principals'] or ['x'])[0],
+                               anyone)
+
+            if cert_blob and not case['cert']['va'] <= clock.now < \
+                    case['cert']['vb']:
+                own = kg_good       # no instant inside the window: skip
+
+            if kg_good is not True or own is not True:
+                raise Violation(
+                    'keygen-disagrees', 'untouched %s-made signature: '
+                    'ssh-keygen check-novalidate %s (%r), asyncssh %r' %
+                    ('asyncssh' if direction == 'a2k' else 'ssh-keygen',
+                     'ok' if kg_good else 'fails', err[:200], own),
+                    'keygen-untouched:' + direction)
+
+            # altered message / altered blob: both sides refuse
+            alts = []
+
+            for p in case['msg_pos']:
+                if msg:
+                    pos = p % len(msg)
+                    alts.append((xor_at(msg, pos, mask_at(pos, 3, 5)), sig,
+                                 'message'))
+
+            alts.append((msg + b'\n', sig, 'message'))
+
+            for p in case['msg_pos']:
+                pos = p * 7919 % len(blob)
+                region = region_of(parsed['regions'], pos)
+                alts.append((msg, armor(xor_at(blob, pos, mask_at(
+                    pos, *case['mask']))), region))
+
+            for amsg, asig, region in alts:
+                write(tmp, 'sig2', asig)
+                rc, out, err = keygen(['-Y', 'check-novalidate', '-n', ns,
+                                       '-s', 'sig2'], tmp, amsg)
+                got = sig_validate(amsg, asig, case['queries'][0], anyone)
+
+                if got:
+                    raise Violation('sshsig-edit-accepted', 'validate_sshsig '
+                                    'accepted an altered %s' % region,
+                                    'sshsig-edit:' + region)
+
+                if rc == 0:
+                    labels.add('keygen-accepts-altered:' + region)
+
+            labels.add('altered')
+
+            # allowed signers: same verdict at every instant / principal
+            for now in case['nows']:
+                # OpenSSH treats the valid-before of an allowed-signers line
+                # as inclusive ("at or before"), asyncssh documents "before":
+                # the instant itself is outside the compared domain
+                if any(e.get('junk') is None and e['vb'] == now
+                       for e in case['entries']):
+                    labels.add('skip:valid-before-instant')
+                    continue
+
+                clock.now = now
+
+                for principal in case['queries']:
+                    rc, out, err = keygen(
+                        ['-Y', 'verify', '-f', 'allowed', '-I', principal,
+                         '-n', ns, '-s', 'sig', verify_time(now)], tmp, msg)
+                    kg = rc == 0
+                    got = sig_validate(msg, sig, principal, allowed)
+                    exp, why = authorised(case, keys, principal, now)
+                    labels.add('auth:' + why)
+
+                    if got is not kg:
+                        raise Violation(
+                            'keygen-disagrees', 'principal %r namespace %r '
+                            'now=%d: ssh-keygen -Y verify %s, '
+                            'validate_sshsig %r (model %s); allowed '
+                            'signers:\n%s\n%s' %
+                            (principal, ns, now, 'accepts' if kg else
+                             'refuses', got, why, allowed.decode(),
+                             err.decode('utf-8', 'replace')[:300]),
+                            'keygen-verify:%s:%s' %
+                            ('accepts' if kg else 'refuses', why))
+
+                    if got is not exp:
+                        raise Violation(
+                            'sshsig-accepted' if got else 'sshsig-rejected',
+                            'validate_sshsig %r, model %s' % (got, why),
+                            'sshsig-%s:%s' % ('accepted' if got else
+                                              'rejected', why))
+
+                    labels.add('verdict:' + ('accept' if kg else 'refuse'))
+    finally:
+        shutil.rmtree(tmp, ignore_errors=True)
+
+    return CaseResult(sorted(labels), True)
+
+
+def keygen_sshsig_strategy(tier: str):
+    base = sshsig_strategy_for(KEYGEN_KTS, KG_NAMES, KG_NAMESPACES,
+                               KG_NS_PATS, KG_PATS, keygen=True)
+
+    @st.composite
+    def build(draw):
+        case = draw(base)
+        case['direction'] = draw(st.sampled_from(['a2k', 'k2a']))
+        case['raw'] = False
+        case['msg_pos'] = draw(st.lists(st.integers(0, 1000), min_size=1,
+                                        max_size=2))
+        return case
+
+    return build()
+
+
+def parse_keygen_L(text: str) -> Dict[str, Any]:
+    out: Dict[str, Any] = {}
+    section = None
+
+    for line in text.split('\n')[1:]:
+        if line.startswith(' ' * 16):
+            out[section].append(line[16:])
+        elif line.startswith(' ' * 8) and ':' in line:
+            name, val = line[8:].split(':', 1)
+            val = val[1:] if val.startswith(' ') else val
+
+            if name in ('Principals', 'Critical Options', 'Extensions'):
+                section = name
+                out[name] = []
+            else:
+                out[name] = val
+
+    return out
+
+
+def iso(t: int) -> str:
+    return datetime.datetime.fromtimestamp(
+        t, datetime.timezone.utc).strftime('%Y-%m-%dT%H:%M:%S')
+
+
+def run_keygen_cert(case) -> CaseResult:
+    spec = case['spec']
+    ca = refkey(*spec['ca'])
+    sub = refkey(*spec['sub'])
+    labels = {'dir:' + case['direction'], 'ca:' + ca.kt, 'sub:' + sub.kt,
+              'type:%d' % spec['type']}
+    tmp = tempfile.mkdtemp(prefix='c16-')
+
+    try:
+        if case['direction'] == 'a2k':
+            blob = api_cert(spec)
+            write(tmp, 'c-cert.pub', cert_text(blob))
+            rc, out, err = keygen(['-L', '-f', 'c-cert.pub'], tmp)
+
+            if rc != 0:
+                raise Violation('keygen-disagrees', 'ssh-keygen -L cannot '
+                                'read a generated certificate: %r' % err,
+                                'keygen-L-fails')
+
+            got = parse_keygen_L(out.decode('utf-8', 'replace'))
+            alg = KT[sub.kt]['cert'][0]
+            va, vb = spec['va'], spec['vb']
+
+            if va == 0 and vb == MAXU64:
+                valid = 'forever'
+            elif va == 0:
+                valid = 'before ' + iso(vb)
+            elif vb == MAXU64:
+                valid = 'after ' + iso(va)
+            else:
+                valid = 'from %s to %s' % (iso(va), iso(vb))
+
+            want = {
+                'Type': '%s %s certificate' %
+                        (alg, 'user' if spec['type'] == USER else 'host'),
+                'Signing CA': '%s %s (using %s)' %
+                              (KG_TYPENAME[ca.kt], ca.fingerprint(),
+                               spec['sigalg']),
+                'Public key': '%s-CERT %s' % (KG_TYPENAME[sub.kt],
+                                              sub.fingerprint()),
+                'Key ID': '"%s"' % spec['key_id'],
+                'Serial': str(spec['serial']), 'Valid': valid,
+                'Principals': sorted(spec['principals']),
+                'Critical Options': sorted('%s %s' % (n, v)
+                                           for n, _, v in spec['crit']),
+                'Extensions': sorted(n for n, _, _ in spec['ext'])}
+
+            for k, v in want.items():
+                g = got.get(k)
+
+                if isinstance(v, list):
+                    g = sorted(g) if g else []
+                    if got.get(k) == '(none)':
+                        g = []
+
+                if g != v:
+                    raise Violation('keygen-disagrees', 'ssh-keygen -L '
+                                    'shows %s = %r, generated %r' % (k, g, v),
+                                    'keygen-L:' + k)
+
+            labels.add('L-fields')
+            return CaseResult(sorted(labels), True)
+
+        # ssh-keygen signs, asyncssh imports and validates
+        write(tmp, 'ca', ca.openssh_private)
+        write(tmp, 'sub.pub', sub.pub_text + b'\n')
+        args = ['-s', 'ca', '-I', spec['key_id'], '-z', str(spec['serial']),
+                '-V', '%s:%s' % (ts_text(spec['va'])[:-1],
+                                 ts_text(spec['vb'])[:-1])]
+
+        if ca.kt == 'rsa':
+            args += ['-t', spec['sigalg']]
+        if spec['type'] == HOST:
+            args.append('-h')
+        if spec['principals']:
+            args += ['-n', ','.join(spec['principals'])]
+
+        args += ['-O', 'clear']
+        crit, ext = [], []
+
+        for name, kind, val in spec['crit']:
+            if name in KNOWN_CRIT[USER]:
+                args += ['-O', '%s=%s' % (name, val)]
+            elif name == 'verify-required':
+                args += ['-O', name]
+            else:
+                args += ['-O', 'critical:' + name +
+                         ('=' + val if kind == 'str' else '')]
+            crit.append(name)
+
+        for name, kind, val in spec['ext']:
+            if name in KNOWN_EXT:
+                args += ['-O', name.lower() if name != 'permit-X11-forwarding'
+                         else 'permit-X11-forwarding']
+            else:
+                args += ['-O', 'extension:' + name +
+                         ('=' + val if kind == 'str' else '')]
+            ext.append(name)
+
+        rc, out, err = keygen(args + ['sub.pub'], tmp)
+
+        if rc != 0:
+            raise HarnessError('ssh-keygen -s failed: %r %r' % (args, err))
+
+        with open(os.path.join(tmp, 'sub-cert.pub'), 'rb') as f:
+            text = f.read()
+
+        blob = base64.b64decode(text.split()[1])
+        parsed = parse_cert(blob)
+
+        for k in ('type', 'va', 'vb', 'principals', 'serial'):
+            if parsed[k] != spec[k]:
+                raise HarnessError('ssh-keygen -s made %s=%r, wanted %r' %
+                                   (k, parsed[k], spec[k]))
+
+        if sorted(n for n, _ in parsed['crit']) != sorted(crit) or \
+                sorted(n for n, _ in parsed['ext']) != sorted(ext):
+            raise HarnessError('ssh-keygen -s options %r %r, wanted %r %r' %
+                               (parsed['crit'], parsed['ext'], crit, ext))
+
+        known = all(n in KNOWN_CRIT[spec['type']] for n in crit)
+        cert = try_import(text)
+        labels.add('import:' + ('ok' if known else 'unknown-critical'))
+
+        if crit:
+            labels.add('has-critical')
+        if any(n not in KNOWN_EXT for n in ext):
+            labels.add('unknown-extension')
+
+        if cert is not None and not known:
+            raise Violation('cert-accepted', 'import_certificate accepted an '
+                            'ssh-keygen certificate with critical options '
+                            '%r' % crit, 'cert-accepted:unknown-critical')
+
+        if cert is None and known:
+            raise Violation('cert-rejected', 'import_certificate refused a '
+                            'certificate made by ssh-keygen -s (%r)' %
+                            args, 'cert-rejected:keygen')
+
+        if cert is not None:
+            with patched_clock() as clock:
+                for now in instants(spec, []):
+                    clock.now = now
+
+                    for want_type in (ANY, USER, HOST):
+                        for principal in [None, 'nobody'] + \
+                                spec['principals']:
+                            ok, why = validate_expected(spec, want_type,
+                                                        principal, now)
+
+                            try:
+                                cert.validate(want_type, principal)
+                                got = True
+                            except ValueError:
+                                got = False
+
+                            if got is not ok:
+                                raise Violation(
+                                    'validate-accepted' if got else
+                                    'validate-rejected',
+                                    'ssh-keygen certificate: validate(%d, '
+                                    '%r) at %r gives %r, predicate %s' %
+                                    (want_type, principal, now, got, why),
+                                    'validate-%s:%s' %
+                                    ('accepted' if got else 'rejected', why))
+
+            labels.add('validated')
+    finally:
+        shutil.rmtree(tmp, ignore_errors=True)
+
+    return CaseResult(sorted(labels), True)
+
+
+KG_TYPENAME = {'rsa': 'RSA', 'p256': 'ECDSA', 'p384': 'ECDSA',
+               'p521': 'ECDSA', 'ed25519': 'ED25519', 'dsa': 'DSA'}
+KG_TIMES = [1, 1000, 86400 * 11000, 1700000000, 1700000001, 2000000000,
+            2 ** 31 - 1]
+
+
+def keygen_cert_strategy(tier: str):
+    @st.composite
+    def build(draw):
+        direction = draw(st.sampled_from(['a2k', 'k2a']))
+        spec = draw(spec_strategy(True, kts=KEYGEN_KTS, ascii_only=True,
+                                  valid_window=True))
+        names = ['alice', 'bob', 'root', 'host.example.com', 'al', 'Alice']
+        spec['principals'] = draw(st.lists(st.sampled_from(names),
+                                           max_size=3, unique=True))
+        spec['key_id'] = draw(st.text(alphabet='abcXYZ019_-@.', min_size=1,
+                                      max_size=10))
+        tm = st.sampled_from(KG_TIMES)
+
+        if spec['ca'][0] == 'rsa':
+            spec['sigalg'] = draw(st.sampled_from(
+                ['rsa-sha2-256', 'rsa-sha2-512', 'ssh-rsa']))
+
+        if direction == 'a2k':
+            ends = draw(st.sampled_from(['both', 'both', 'forever', 'before',
+                                         'after']))
+        else:
+            ends = 'both'
+
+            if spec['type'] == USER:
+                if draw(st.integers(0, 2)) == 0:
+                    spec['crit'].append(draw(st.sampled_from([
+                        ['verify-required', 'flag', None],
+                        ['unknown@c16', 'str', 'x'],
+                        ['unknown@c16', 'flag', None]])))
+                if draw(st.integers(0, 1)) == 0:
+                    spec['ext'].append(draw(st.sampled_from([
+                        ['login@github.com', 'str', 'octocat'],
+                        ['unknown@c16', 'flag', None],
+                        ['zzz@c16', 'str', 'permit-pty']])))
+
+        a, b = sorted(draw(st.lists(tm, min_size=2, max_size=2,
+                                    unique=True)))
+        spec['va'] = 0 if ends in ('forever', 'before') else a
+        spec['vb'] = MAXU64 if ends in ('forever', 'after') else b
+        spec['serial'] = draw(st.integers(0, 2 ** 63 - 1))
+        return {'direction': direction, 'spec': spec}
+
+    return build()
+
+
 FAMILIES = [
     Family('rawsig', run_rawsig, strategy=rawsig_strategy,
            budget={'quick': 260, 'thorough': 8000},
@@ -1970,4 +2416,9 @@ FAMILIES = [
            shards={'quick': 4, 'thorough': 16}),
     Family('sshsig-model', run_sshsig_model, strategy=sshsig_model_strategy,
            budget={'quick': 300, 'thorough': 8000}),
+    Family('keygen-sshsig', run_keygen_sshsig,
+           strategy=keygen_sshsig_strategy,
+           budget={'quick': 64, 'thorough': 1500}),
+    Family('keygen-cert', run_keygen_cert, strategy=keygen_cert_strategy,
+           budget={'quick': 64, 'thorough': 1500}),
 ]
